@@ -385,6 +385,16 @@ def r6_pair_adapters(repo, report):
             return f"({m1}, {m2})"
         return "keep"
 
+    # what is recorded as the best pair is the pair of matches of THIS rank's two adapters
+    stored = sorted({outcome(r) for r in rows} - {"keep"})
+    foreign = [v for v in stored if v != f"({m1}, {m2})"]
+    by_identity = [v for v in foreign if re.search(r"\[AD[12]\]", v)]
+    if foreign and len(by_identity) == len(foreign):
+        raise Unrecognised(f"_find_best_match_pair: matches looked up per adapter object {foreign}: not modelled", repo.loc(fb))
+    report.ob("C05.R6", "_find_best_match_pair records the matches of the adapters of one rank", not foreign, facts={"recorded": stored}, expected=f"({m1}, {m2}) with AD1, AD2 the adapters of the current rank", loc=repo.loc(fb),
+              why=(f"the recorded pair is {foreign[0]}: a match object that need not stem from this rank's adapter (its .adapter, and with it the adapter name used for {{name}} and the statistics, may be another one)" if foreign else ""))
+    if foreign:
+        return
     mism, n, _ = check_table(rows, roles, expected, outcome)
     report.saw(function="PairedAdapterCutter._find_best_match_pair", valuations=len(rows))
     report.ob("C05.R6", "PairedAdapterCutter._find_best_match_pair", not mism, facts={"rows": len(rows), "mismatches": mism[:3]},
